@@ -9,7 +9,7 @@ from penman.model import Model
 from penman.models.amr import model as amr
 import gen
 gen.ROLES[:] = [':ARG0',':ARG1',':mod',':domain',':polarity',':quant',':time',':location',':part',':poss',':beneficiary',':subset',':age',':name',':op1',':accompanier', ':role', ':employed-by', ':superset']
-gen.CONCEPTS[:] = ['alpha','beta','b','i','"a string"','1','x-01','c','have-mod-91','include-91','own-01']
+gen.CONCEPTS[:] = ['alpha','beta','b','i','"a string"','1','x-01','c','have-mod-91','include-91','own-01','have-quant-91','have-mod-91','include-91','own-01']
 from gen import trees
 print(penman.__file__)
 model = amr
@@ -40,20 +40,28 @@ def run(data):
     g = layout.interpret(t, model)
     if len(set(g.triples)) != len(g.triples): return
     if any(model.invert_role(model.invert_role(r)) != r for _,r,_ in g.triples if r != ':instance'): return
-    if any(r.startswith(':superset') for _,r,_ in g.triples): return
-    if any(r==':instance' and model.is_concept_dereifiable(t) for _,r,t in g.triples): return
+    c11ok = not any(r.startswith(':superset') for _,r,_ in g.triples) and not any(r==':instance' and model.is_concept_dereifiable(t) for _,r,t in g.triples)
     n[1]+=1
     src = penman.format(t, indent=None)
     strip = data.draw(st.booleans())
     if strip:
         g = Graph(g.triples, top=g.top)
+    edit = data.draw(st.sampled_from(['none','append','retop','both']))
+    if edit in ('append','both'):
+        v = data.draw(st.sampled_from(sorted(g.variables())))
+        extra = (v, data.draw(st.sampled_from([':mod',':quant',':ARG1',':polarity'])), data.draw(st.sampled_from(['zz','9','"q"'])))
+        if extra not in g.triples: g.triples.append(extra)
+    if edit in ('retop','both'):
+        g.top = data.draw(st.sampled_from(sorted(g.variables())))
     # C11
     try:
+      if c11ok:
         g1 = transform.reify_edges(g, model)
         if any(model.is_role_reifiable(r) for _,r,_ in g1.triples): rec(('reify-left',), (src,))
         g2 = transform.dereify_edges(g1, model)
         e0 = penman.encode(g, model=model, indent=None); e2 = penman.encode(g2, model=model, indent=None)
         if e0 != e2: rec(('c11-text', strip), (src, e0, penman.encode(g1, model=model, indent=None), e2))
+      n[2]+=1
     except Exception as e:
         rec(('c11-exc', type(e).__name__, strip), (src, repr(e)))
     # C12 programs
